@@ -1,0 +1,17 @@
+//go:build !verif
+
+package exec
+
+import (
+	"context"
+
+	"github.com/theory/sqljson/path/ast"
+)
+
+// verifOn is false unless the package is built with the "verif" build tag,
+// which makes the verification hooks below dead code.
+const verifOn = false
+
+func verifStep(context.Context, *Executor, ast.Node, any, bool, bool) func() { return nil }
+
+func verifCall(context.Context, *Executor) func() { return nil }
